@@ -15,19 +15,26 @@
 #define VM_TWO52 4503599627370496.0
 #define VM_TWO23F 8388608.0f
 
-/* Common core: for finite |x| < 2^52 and y in {360, 90} (k*y is then exact in binary64 because
- * y = 45 * 2^3 resp. 45 * 2 and |k| < 2^44), the IEEE remainder r = x - k*y is exactly
+/* Common core: for finite |x| < 2^52 and y in {720, 360, 90} (k*y is then exact in binary64 because
+ * y = 45 * 2^4, 45 * 2^3 resp. 45 * 2 and |k| < 2^44), the IEEE remainder r = x - k*y is exactly
  * representable, so  fl(x - (double)k * y) == r  pins it, k being the integer nearest x/y with
  * ties to even.  Outside that domain only |r| <= y/2 and the NaN rules are given. */
 /* ghost: the integer quotient chosen by the last remainder/remquo evaluation (witness for "differs by a multiple of y") */
 extern long long vm_last_k;
+#ifndef VM_REM_UF_DEFINED
+double __CPROVER_uninterpreted_vm_rem_r(double, double);
+long long __CPROVER_uninterpreted_vm_rem_k(double, double);
+float __CPROVER_uninterpreted_vm_rem_rf(float, float);
+long long __CPROVER_uninterpreted_vm_rem_kf(float, float);
+#endif
 static inline double vm_remquo_core(double x, double y, long long *kout) {
-  double r = nondet_double();
-  long long k = nondet_longlong();
+  /* deterministic: the same arguments give the same result also where only the range is constrained */
+  double r = __CPROVER_uninterpreted_vm_rem_r(x, y);
+  long long k = __CPROVER_uninterpreted_vm_rem_k(x, y);
   if (isnan(x) || isnan(y) || isinf(x) || y == 0) { *kout = 0; return VERIF_NAN; }
   if (isinf(y)) { *kout = 0; return x; }
   double ay = fabs(y);
-  if ((ay == 360.0 || ay == 90.0) && fabs(x) < VM_TWO52) {
+  if ((ay == 360.0 || ay == 90.0 || ay == 720.0) && fabs(x) < VM_TWO52) {
     __CPROVER_assume(k > -(1LL << 46) && k < (1LL << 46));
     __CPROVER_assume(x - (double)k * ay == r);
     __CPROVER_assume(fabs(r) <= ay / 2);
@@ -51,8 +58,8 @@ static inline double vm_remquo(double x, double y, int *q) {
   return r;
 }
 static inline float vm_remquo_coref(float x, float y, long long *kout) {
-  float r = nondet_float();
-  long long k = nondet_longlong();
+  float r = __CPROVER_uninterpreted_vm_rem_rf(x, y);
+  long long k = __CPROVER_uninterpreted_vm_rem_kf(x, y);
   if (isnan(x) || isnan(y) || isinf(x) || y == 0) { *kout = 0; return (float)VERIF_NAN; }
   if (isinf(y)) { *kout = 0; return x; }
   float ay = verif_fabsf(y);
